@@ -379,5 +379,20 @@ _RULE_ADDENDA_R3 = {
 }
 for _pid, _txt in _RULE_ADDENDA.items():
     PROPS[_pid]["rule"] = PROPS[_pid].get("rule", "") + _txt
+_RULE_ADDENDA_R4 = {
+    'C01': ' Round 4: one Decoder may read 2-4 copies of the document from one stream into fresh destinations; strings may end in cut-short CESU-8 sequences.',
+    'C02': ' Round 4: one Encoder writes the value three times (documents must be back to back and equal); carrier documents may repeat the first name of every non-empty compound.',
+    'C06': ' Round 4: array elements that take no bytes on the wire; empty-collection NBT roots passed as typed nil.',
+    'C07': ' Round 4: on the Conn variant the last bytes may arrive together with io.EOF.',
+    'C08': ' Round 4: when a palette decoder accepts a container (bits > 0) the reference reader must not find its data-array length inconsistent; command words include upper/mixed-case and Kelvin-sign variants of the literals.',
+    'C10': ' Round 4: C10Conn may deliver the last bytes together with io.EOF; C10Listen: ListenMC/Accept/DialMC over loopback TCP, 1-3 plain packets, then both ends enable encryption while the client sends 1-8 packets without waiting, plus one packet back.',
+    'C11': ' Round 4: after a wire round trip the history may continue on the storage that was written; Raw() may be inspected only at the end of the history.',
+    'C12': ' Round 4: saved palettes may list an id twice; 6000 bytes follow each container on the wire and the bytes taken are measured at the source, for readers with/without ReadByte, whole or 1..37 bytes per Read.',
+    'C13': ' Round 4: in half of the sections the first edit after a load writes air.',
+    'C14': " Round 4: rarely (1 history in 80) a 'tick' op waits for the wall clock to reach the next second, so that timestamps of later writes differ.",
+    'C18': " Round 4: after a genuine (swapped-key) signature verified, a forged one for the same profile key must still be refused; C18Handshake: auth.Encrypt over an in-memory connection against a harness client with 16/24/32-byte shared secrets, the serverId it looks up (recorded by a stub http.DefaultTransport, no network) must be Java's rendering of sha1(serverID+secret+publicKey).",
+}
 for _pid, _txt in _RULE_ADDENDA_R3.items():
+    PROPS[_pid]["rule"] = PROPS[_pid].get("rule", "") + _txt
+for _pid, _txt in _RULE_ADDENDA_R4.items():
     PROPS[_pid]["rule"] = PROPS[_pid].get("rule", "") + _txt
